@@ -172,7 +172,7 @@ class MergeConsecutiveOp(BaseOp):
             max_group = df_group.sum(axis=1, skipna=True).max()
             anchor = df_group.index[0] - 1
             max_anchor = df_new.loc[anchor, [
-                "onset", "duration"]].sum(skipna=True).max()
+                "onset", "duration"]].sum(skipna=True)
             df_new.loc[anchor, "duration"] = max(
                 max_group, max_anchor) - df_new.loc[anchor, "onset"]
 
